@@ -1,5 +1,5 @@
 """Per-property configuration of the checks (see DESIGN.md §6)."""
-from vlib import run_verus_property, run_kani_property, run_compile_snippets
+from vlib import run_verus_property, run_verus_multi, run_kani_property, run_compile_snippets
 
 PRELUDE = ["00_prelude.vrs"]
 STACK = ["10_stack.vrs"]
@@ -46,7 +46,9 @@ KANI = {
         K("c11::p_c11_one_over_length_vec", "genome length <= 3, " + RNG, "WithOneOverLength == WithRate(1/len) on the same stream"),
         K("c11::p_c11_one_over_length_bitstring", "genome length <= 3, " + RNG, "WithOneOverLength on Bitstring"),
         K("c11::p_c11_umad_empty", "empty parent; rates from {0,.25,.5,.875,1}; " + RNG, "Umad::{new,new_with_empty_rate,new_without_empty} on an empty genome"),
-        K("c11::p_c11_umad_vector", "parent length 1 (array-backed Linear genome); rates from {0,.25,.5,.875,1}; " + RNG, "Umad::mutate structure"),
+        K("c11::p_c11_umad_vector", "parent length 1 (array-backed Linear genome); rates from {0,.25,.5,.875,1}; " + RNG, "Umad::mutate structure", "thorough"),
+        K("c11::p_c12_umad_threshold", "all words (constant stream); rates from {0,.25,.5,.875,1}; parent length 1", "Umad::mutate on one gene: structure and coins"),
+        K("c11::p_c11_linear_impls", "Plushy of two close markers; Vector / Bitstring of length <= 3", "Linear::size / gene_mut of Plushy, Vector, Bitstring"),
         K("c11::p_c11_with_rate_vec_n5", "genome length <= 5", "WithRate on Vec<T>", "thorough"),
         K("c11::p_c11_with_rate_bitstring_n5", "genome length <= 5", "WithRate on Bitstring", "thorough"),
         K("c11::p_c11_umad_vector_n2", "parent length <= 2 (array-backed Linear genome)", "Umad::mutate structure", "thorough"),
@@ -56,6 +58,7 @@ KANI = {
         K("c11::p_c12_umad_threshold", "all words; rates from {0,.25,.5,.875,1}; parent length 1", "UMAD coins are Bernoulli(addition_rate)/Bernoulli(deletion_rate), new genes subject to deletion"),
         K("c11::p_c11_one_over_length_vec", "genome length <= 3, " + RNG, "rate applied is exactly 1/length"),
         K("c10::p_c10_uniform_vec", "genome length <= 3; " + RNG, "uniform crossover: one fair word per position, every origin pattern reachable"),
+        K("c10::p_c10_uniform_bitstring", "genome length <= 3; " + RNG, "uniform crossover via Crossover (Bitstring): one fair word per position, every origin pattern reachable"),
         K("c18::p_c12_bool_generator", "all words; p from {0,.25,.5,.875,1}", "BoolGenerator / random_with_probability threshold p*2^64"),
         K("c18::p_c12_gene_generator", "all words, all close probabilities in [0,1]; n from {1,3,9}", "GeneGenerator: Close <=> uniform_f32(w) < close_probability; default 1/(n+1)"),
     ],
@@ -287,7 +290,8 @@ PROPS = {
 for _pid in ("C06", "C07", "C10", "C11", "C12", "C13", "C14", "C15", "C16", "C17", "C18"):
     PROPS[_pid] = {"steps": [run_kani_property], "level": "model_checking", "kani": KANI[_pid], "explanation": KANI_EXPL, "assumptions": KANI_ASSUME}
 
-PROPS["C19"] = {"steps": [run_compile_snippets, run_kani_property], "snippets": "c19", "level": "model_checking", "kani": KANI["C19"],
+PROPS["C19"] = {"templates": PRELUDE + STD + STACK + ["20_plumbing.vrs", "30_state.vrs", "88_builder.vrs"] + MAIN, "expand": True, "extern": True,
+                "steps": [run_compile_snippets, run_verus_property, run_kani_property], "snippets": "c19", "level": "proof", "kani": KANI["C19"],
                 "explanation": "compile-time part: one snippet per illegal / legal builder call sequence compiled alone against the real crate (rustc's trait solver decides the "
                                "type-state preconditions, statically and for all values); run-time part: Kani on the real generated PushState builder.",
                 "assumptions": KANI_ASSUME + ["std::hash::RandomState::new is stubbed (zero keys) in the builder harnesses: HashMap iteration order is never observed by the builder"]}
@@ -324,3 +328,10 @@ PROPS["C08"] = {"templates": PRELUDE + ["86_ec_lexicase.vrs"] + MAIN, "expand": 
                 "assumptions": ["SliceRandom::shuffle returns a permutation of its input determined by the stream state (vx_shuffle stand-in whose body is that call); that every permutation is equally likely is rand's contract",
                                 "the result type's order is a lawful total order (precondition `lawful::<Res>()`; inherited by Score / Error from their payload, C15)",
                                 "vstd's models of Vec, slices (split_first, first, get, is_empty), ranges/collect, mem::swap and for-loops over them; Option::copied contract"]}
+
+# C06: Verus for the combination selectors (Weighted, WeightedPair) and Lexicase; Kani for membership-by-address, the remaining selectors and the no-panic clause
+PROPS["C06"] = {"template_sets": [PRELUDE + ["82_ec_weighted.vrs"] + MAIN, PRELUDE + ["86_ec_lexicase.vrs"] + MAIN], "expand": ["ec-core"], "extern": True,
+                "steps": [run_verus_multi, run_kani_property], "level": "model_checking", "kani": KANI["C06"],
+                "explanation": KANI_EXPL + " Verus (unbounded): Weighted::select / WeightedPair::select return a member's selection or exactly ZeroWeight / the member's error; "
+                               "Lexicase::select returns population[i] for a surviving i or exactly EmptyPopulation / MissingTestCase (see C08, C13).",
+                "assumptions": KANI_ASSUME}
